@@ -162,8 +162,17 @@ BFE_MORE = ["bfe/tls11/e019", "bfe/tls12/c02f",
             "bfe/tls12/cca8", "bfe/tls12/c013", "bfe/tls10/c013", "bfe/tls12/0005"]
 
 
+CBC_SUITES = {"002f", "0035", "000a", "c009", "c00a", "c012", "c013", "c014", "e019"}
+
+
+def pad_auth(combo):
+    """Record.tla PadAuth: FALSE exactly for SSL 3.0 with a block cipher (padding outside the MAC)."""
+    f = combo.split("/")
+    return not (f[1] == "ssl30" and f[2] in CBC_SUITES)
+
+
 def rec_gen(ctx, n, k):
-    d = {"N": n, "K": k}
+    d = {"N": n, "K": k, "PADAUTH": "TRUE"}
     r = ctx.tlc("Tls", "GenRecord", "Gen_Record.cfg", defines=d, timeout=1500, count=False)
     if not r.ok:
         raise vlib.MachineryError("GenRecord failed: %s %s" % (r.error or r.violation, r.out[-500:]))
@@ -214,9 +223,11 @@ def rec_run(ctx, cases, label):
 
 def check_c42(ctx):
     q = ctx.tier == "quick"
-    mcd = {"N": 3 if q else 4, "K": 2}
-    ctx.cov["constants"]["MC_Record"] = dict(mcd, regions=REGIONS.replace('"', ""))
-    ctx.tlc_must_pass("Tls", "Record", "MC_Record.cfg", defines=mcd, timeout=2400, coverage=not q)
+    mcd = {"N": 3 if q else 4, "K": 2, "PADAUTH": "TRUE"}
+    ctx.cov["constants"]["MC_Record"] = dict(mcd, regions=REGIONS.replace('"', ""), PADAUTH="TRUE and FALSE")
+    ctx.tlc_must_pass("Tls", "Record", "MC_Record.cfg", defines=mcd, timeout=3000, coverage=not q)
+    # SSL 3.0 block ciphers: padding outside the MAC; the weaker Layer P must hold for that mechanism too
+    ctx.tlc_must_pass("Tls", "Record", "MC_Record.cfg", defines=dict(mcd, PADAUTH="FALSE"), timeout=3000)
     rnd = random.Random(ctx.seed * 104729 + 42)
     allw = rec_gen(ctx, 3 if q else 4, 2)
     singles = [c for c in allw if len(c["acts"]) <= 1]
@@ -232,6 +243,7 @@ def check_c42(ctx):
                 continue
             cc = dict(c)
             cc["combo"] = combo + "/" + d
+            cc["padauth"] = pad_auth(combo)
             cases.append(cc)
 
     if q:
@@ -265,6 +277,10 @@ def check_c42(ctx):
     ctx.assumptions.append("loss of the tail of the stream (whole records or < 5 header bytes) ends in a clean EOF: "
                            "bfe_tls does not require close_notify (documented leniency, named in Record.tla)")
     ctx.assumptions.append("handshake records are passed through untouched (handshake tampering belongs to C41)")
+    ctx.assumptions.append("SSL 3.0 with a block cipher: padding is not covered by the MAC (protocol design, POODLE class); "
+                           "an edit confined to padding is accepted 1 time in 256 by any conforming receiver, so for these "
+                           "combinations only 'delivered bytes are a prefix of what was sent' and 'the run ends in an error' "
+                           "are decisive (Record.tla, PadAuth = FALSE)")
 
 
 # ---------------------------------------------------------------------------------------- C45
